@@ -1647,6 +1647,9 @@ func (e *Env) lightCheck(where string) {
 		}
 		e.failf("%s: observation differs from model:\n%s", where, strings.Join(d, "\n"))
 	}
+	if e.opts.Walk && !e.dirty && e.cfg.Async == nil {
+		e.walkCheck(where)
+	}
 }
 
 // ---------------------------------------------------------------- helpers
